@@ -244,4 +244,9 @@ example : (unpack fresh (wVideo.set 192 0x46)).2 = .error .generic := by rfl
 set_option maxRecDepth 20000 in
 example : (unpack fresh (wVideo ++ [0x47, 0, 0])).2 = .error .generic := by rfl
 
+/-- witness for `splitTS_error_iff` (fuel hypothesis and both sides): a 5-byte stream whose only chunk has the wrong sync byte -/
+example : ([0x46, 0, 0, 0x10, 1] : Bytes).length - 0 + 1 ≤ 6 ∧ splitTS [0x46, 0, 0, 0x10, 1] 6 0 = .error .generic ∧
+    0 + 188 * 0 < ([0x46, 0, 0, 0x10, 1] : Bytes).length ∧
+    chunkOk (slice [0x46, 0, 0, 0x10, 1] (0 + 188 * 0) (0 + 188 * 0 + 188)) = false := ⟨by decide, rfl, by decide, rfl⟩
+
 end Acra.Props.C08
